@@ -120,3 +120,82 @@ def failure_to_success_stages(fn, var, resolve):
         if target is None or not preserves_failure(target):
             out.append(c)
     return out
+
+
+def _returned_chain(callee, methods, depth):
+    """stages already attached to the Deferred a helper method returns: `d = ..; d.addErrback(..); return d` or
+    `return <expr>.addErrback(..)`"""
+    out = []
+    for r in ast.walk(callee):
+        if isinstance(r, ast.Return) and r.value is not None:
+            out = expr_stages(callee, r.value, methods, depth - 1)
+            break
+    return out
+
+
+def expr_stages(fn, expr, methods=None, depth=3):
+    """the stages on the Deferred denoted by `expr` inside fn, oldest first: a local (its own add* statements, after whatever its
+    defining expression carries), a chained `<expr>.addX(..)` call, or a call of a method of the same class that returns a Deferred
+    with stages already attached (followed through `methods`: name -> FunctionDef)"""
+    if depth < 0:
+        return []
+    chain = []
+    e = expr
+    while isinstance(e, ast.Call) and isinstance(e.func, ast.Attribute) and e.func.attr in _ADD:
+        chain.append(e)
+        e = e.func.value
+    chain.reverse()
+    base = []
+    if isinstance(e, ast.Name):
+        defs = [a.value for a in ast.walk(fn) if isinstance(a, ast.Assign) and len(a.targets) == 1 and isinstance(a.targets[0], ast.Name)
+                and a.targets[0].id == e.id]
+        if len(defs) == 1:
+            base = expr_stages(fn, defs[0], methods, depth - 1)
+        # every add* statement on that local, in source order (the chain under `expr` is among them when expr is such a statement)
+        stmts_ = _stage_calls(fn, e.id)
+        base = base + stmts_
+        chain = [c for c in chain if c not in stmts_]
+    elif isinstance(e, ast.Call) and methods is not None and isinstance(e.func, ast.Attribute) and isinstance(e.func.value, ast.Name) \
+            and e.func.value.id == "self" and e.func.attr in methods:
+        base = _returned_chain(methods[e.func.attr], methods, depth)
+    out = []
+    for c in base:
+        out.append(c if isinstance(c, tuple) else _as_stage(c))
+    for c in chain:
+        out.append(_as_stage(c))
+    return out
+
+
+def _as_stage(c):
+    k = c.func.attr
+    a = c.args
+    if k == "addCallback":
+        return (k, a[0] if a else None, None, c)
+    if k == "addErrback":
+        return (k, None, a[0] if a else None, c)
+    if k == "addBoth":
+        return (k, a[0] if a else None, a[0] if a else None, c)
+    eb = a[1] if len(a) > 1 else next((kw.value for kw in c.keywords if kw.arg == "errback"), None)
+    return (k, a[0] if a else None, eb, c)
+
+
+def runs_always_in(stage_list, is_target, initial=("ok", "fail")):
+    """like runs_always, over an explicit stage list"""
+    state = set(initial)
+    for (k, on_ok, on_fail, c) in stage_list:
+        hit_ok = on_ok is not None and is_target(on_ok)
+        hit_fail = on_fail is not None and is_target(on_fail)
+        if hit_ok or hit_fail:
+            missing = set()
+            if "ok" in state and not hit_ok:
+                missing.add("ok")
+            if "fail" in state and not hit_fail:
+                missing.add("fail")
+            return True, not missing, sorted(missing)
+        new = set()
+        if "ok" in state:
+            new |= _after(on_ok) if on_ok is not None else {"ok"}
+        if "fail" in state:
+            new |= _after(on_fail) if on_fail is not None else {"fail"}
+        state = new
+    return False, False, sorted(state)
